@@ -86,3 +86,28 @@ Proof.
   eexists; eexists; eexists. split; [reflexivity|]. split; [left; reflexivity|].
   split; [do 2 right; left; reflexivity|]. split; reflexivity.
 Qed.
+
+(* The `default` option of a variant is valid exactly when SOME derive_where attribute of the item requests Default - the first,
+   the last or one in between, whatever the other attributes request (and it is refused when given twice). *)
+Theorem C11_default_option_any_attribute :
+  forall (dws : list dw) (p : path),
+    (default_add dws (M1Path p) false = Ok true <-> existsb (fun d => dw_contains d Default) dws = true) /\
+    (existsb (fun d => dw_contains d Default) dws = false -> default_add dws (M1Path p) false = Err EDefault) /\
+    default_add dws (M1Path p) true = Err EOptionDuplicate.
+Proof.
+  intros dws p. unfold default_add. destruct (existsb (fun d => dw_contains d Default) dws); repeat split; intros; try reflexivity; try discriminate.
+Qed.
+
+Check C11_default_option_any_attribute :
+  forall (dws : list dw) (p : path),
+    (default_add dws (M1Path p) false = Ok true <-> existsb (fun d => dw_contains d Default) dws = true) /\
+    (existsb (fun d => dw_contains d Default) dws = false -> default_add dws (M1Path p) false = Err EDefault) /\
+    default_add dws (M1Path p) true = Err EOptionDuplicate.
+Print Assumptions C11_default_option_any_attribute.
+
+(* non-vacuity: Default requested by the FIRST of two attributes (the second asks for Clone under a bound) *)
+Example C11_default_first_attribute :
+  default_add [mkDw [mkDT Default None] []; mkDw [mkDT Clone None] [GNoBound ["T"]]] (M1Path (pid "default")) false = Ok true /\
+  default_add [mkDw [mkDT Clone None] [GNoBound ["T"]]; mkDw [mkDT Default None] []] (M1Path (pid "default")) false = Ok true /\
+  default_add [mkDw [mkDT Clone None] [GNoBound ["T"]]] (M1Path (pid "default")) false = Err EDefault.
+Proof. vm_compute. repeat split; reflexivity. Qed.
